@@ -410,8 +410,12 @@ def gen_energy_world(rng: random.Random, n_steps: int, dt: Optional[int] = None)
     for k in range(rng.randint(4, 7)):
         c = cells[rng.randrange(3)]
         ice = rng.random() < 0.4
-        soc = rng.choice([0.0, 0.002, 0.05, 0.5, 0.9, 0.97, 0.9985, 1.0])
+        soc = rng.choice([0.0, 0.002, 0.05, 0.5, 0.9, 0.97, 0.9985, 1.0, 0.9972, 0.9977])      # incl. just below the "full" cut-off
         vehicles.append({"id": f"v{k+1}", "lat": c[0], "lon": c[1], "mech": "toyota_corolla" if ice else "leaf_50", "soc": soc})
+    if dt <= 7:
+        # fine time steps: vehicles a few watt-hours below the "full" cut-off standing at the fast-charging station
+        for k, soc in enumerate((0.9979996, 0.997998, 0.997992)):       # 0.02, 0.1 and 0.4 Wh below the cut-off (49.9 kWh)
+            vehicles.append({"id": f"n{k+1}", "lat": cells[1][0], "lon": cells[1][1], "mech": "leaf_50", "soc": soc})
     requests = []
     for k in range(rng.randint(2, 8)):
         o, d = cells[rng.randrange(3)], cells[rng.randrange(3)]
@@ -747,7 +751,7 @@ def gen_tie_world(rng: random.Random, n_steps: int) -> Dict[str, Any]:
 
 def gen_world(rng: random.Random, *, n_steps: int = 40, fleets: Optional[bool] = None, humans: bool = True,
               dt: Optional[int] = None, tight: bool = True, focus: Optional[str] = None, osm: bool = False,
-              pool: bool = False, variant: Optional[str] = None, far: bool = False) -> Dict[str, Any]:
+              pool: bool = False, variant: Optional[str] = None, far: bool = False, dry: bool = False) -> Dict[str, Any]:
     """a small world built to make vehicles contend: few plugs and stalls, co-located entities, low charge"""
     if focus == "queue":
         return gen_queue_world(rng, n_steps, variant)
@@ -809,6 +813,8 @@ def gen_world(rng: random.Random, *, n_steps: int = 40, fleets: Optional[bool] =
         ice = rng.random() < 0.25
         v = {"id": f"v{k+1}", "lat": c[0], "lon": c[1], "mech": "toyota_corolla" if ice else "leaf_50",
              "soc": rng.choice([0.004, 0.03, 0.2, 0.6, 0.995, 1.0])}
+        if dry:
+            v["soc"] = rng.uniform(0.002, 0.012)        # a kilometre or three: these vehicles run dry on the road
         if humans and rng.random() < 0.3:
             v["schedule"] = rng.choice(["early", "late"])
             v["home_base"] = rng.choice(bases)["id"]
